@@ -108,7 +108,29 @@ def run(ctx: Ctx, tier: str) -> Result:
                 if reads and all(r in want or (k in ("attributes", "resource") and r in ("attributes", "resource")) for r in reads):
                     # containers: element-wise, no filter
                     comps = [n for n in ast.walk(v) if isinstance(n, (ast.ListComp, ast.GeneratorExp, ast.DictComp))]
-                    if any(g_.ifs for c_ in comps for g_ in c_.generators):
+                    helper_filter = None
+                    if isinstance(v, ast.Call) and not comps:
+                        # a repeated field handed to a helper: the helper converts element by element, nothing skipped
+                        for h_ in t.resolve_call(v, fi).repo:
+                            hcomps = [n for n in t.nodes_in(h_) if isinstance(n, (ast.ListComp, ast.GeneratorExp, ast.DictComp))]
+                            hloops = list(t.nodes_in(h_, ast.For))
+                            if any(g_.ifs for c_ in hcomps for g_ in c_.generators):
+                                helper_filter = (h_, hcomps[0])
+                            for lp in hloops:
+                                from .. import paths as _paths
+                                adds = [n for n in ast.walk(lp) if (isinstance(n, ast.Call) and isinstance(n.func, ast.Attribute) and n.func.attr in ("append", "add", "extend"))
+                                        or (isinstance(n, ast.Subscript) and isinstance(n.ctx, ast.Store))]
+                                # conditions that stand inside the loop
+                                cond = [n for n in adds if [c_ for c_, _pol in _paths.conditions(p, _paths.stmt_of(p, n), h_)
+                                                            if lp.lineno <= getattr(c_, "lineno", 0)]]
+                                skips = [n for n in ast.walk(lp) if isinstance(n, (ast.Continue, ast.Break))]
+                                if cond or skips or not adds:
+                                    helper_filter = (h_, (cond or skips or [lp])[0])
+                    if helper_filter:
+                        res.fail(Finding("C08.SCHEMA", helper_filter[0].qname, helper_filter[1], helper_filter[0].loc(helper_filter[1]),
+                                         "%s.%s is converted by a helper that skips elements (`%s`): some of what the snapshot holds never reaches the service" % (
+                                             mname, k, norm(helper_filter[1])[:60])))
+                    elif any(g_.ifs for c_ in comps for g_ in c_.generators):
                         res.fail(Finding("C08.SCHEMA", fi.qname, v, fi.loc(v), "%s.%s is converted with a filter: some elements never reach the service" % (mname, k)))
                     else:
                         res.ok("C08.SCHEMA", {"message": mname, "field": k, "from": "%s.%s" % (src, reads[0])})
